@@ -165,7 +165,9 @@ def xy_spec(draw, families=None, costs=("chi2",), n_sources=(0, 4), x_errors=Tru
     return {"type": "xy", "family": fam, "order": list(order), "x": [float(v) for v in x], "y": [float(v) for v in y], "truth": tb, "cost": cost,
             "sources": sources, "constraints": cons, "start": start, "fixed": fx, "limits": lim,
             "minimizer": draw(st.sampled_from(list(minimizers))), "dea": draw(st.sampled_from(list(deas))), "sigma": base_sigma * (y_scale or 1.0),
-            "y_scale": y_scale, "build_order": draw(st.sampled_from(["sources_first", "sources_first", "sources_first", "params_first"]))}
+            "y_scale": y_scale, "build_order": draw(st.sampled_from(["sources_first", "sources_first", "sources_first", "params_first"])),
+            # default values in the signature of the model function: floats, or (one case in four) plain integers as in 'def f(x, a=1, b=2)'
+            "defaults": ({nm: int(1 + (i % 2)) for i, nm in enumerate(order)} if draw(st.integers(0, 3)) == 0 else None)}
 
 
 @st.composite
